@@ -185,6 +185,46 @@ def make_fine(scn):
     return scn
 
 
+def make_decimal(scn):
+    """the decimal regime: 10 ticks per second, so every time is a non-dyadic float k/10 (0.1, 0.7, 2.3 ...).
+    The code may compare, store and report such times but a correct one never does arithmetic on them
+    that is not exact: timers are absolute, a zero delay delivers at the current time. Hence no mobility
+    (its update times are accumulated sums) and no positive delay in this regime."""
+    cfg, prof = scn["cfg"], scn["profile"]
+    set_handler(cfg, "mobility", False)
+    scn["tick"] = 10.0
+    cfg["delay"] = 0
+    if cfg["duration"] is not None:
+        cfg["duration"] = max(1, cfg["duration"] // 100)
+    prof["offsets"] = [0, 0, 1, 3, 7, 9, 10, 13, 20, -3]
+    prof["horizon"] = 80
+    prof["base"] = 0
+    scn.pop("shadow", None)
+    return scn
+
+
+def make_bigint(scn, r):
+    """the integer regime: one tick per second, every time a Python int, the timeline beyond 2^53 (e.g.
+    nanosecond epochs used as simulated time): neighbouring instants differ by 1 and no float can tell
+    them apart. Stepped only: the blocking call's closing log line formats the simulated time as a
+    `timedelta`, which cannot represent such magnitudes."""
+    cfg, prof = scn["cfg"], scn["profile"]
+    set_handler(cfg, "mobility", False)
+    base = 2 ** r.choice([54, 60, 62])
+    scn["tick"] = 1.0
+    scn["intTime"] = True
+    cfg["delay"] = r.choice([0, 1, 2])
+    if cfg["duration"] is not None:
+        cfg["duration"] = base + r.choice([0, 3, 7, 20])
+    prof["offsets"] = [0, 0, 1, 1, 2, 3, 5, 8, -1, -1, -2]
+    prof["horizon"] = 60
+    prof["base"] = base
+    scn["drive"] = {"mode": "steps", "n": r.choice([30, 120, 400])}
+    scn.pop("shadow", None)
+    scn.pop("between", None)
+    return scn
+
+
 def gen_scenario(seed, force_cfg=None, profile=None, drive=None):
     r = random.Random(stable_hash("scn", seed))
     cfg, geo_ref = gen_cfg(r, **(force_cfg or {}))
